@@ -2900,7 +2900,10 @@ def constants_from_enum(cls=None, module=None):
 
 @register_finalize_hook
 def validate_macros_hook(config):
-  for ref in iterate_references(config, to=get_configurable(macro)):
+  # Look up the macro configurable itself: `get_configurable` would return a
+  # scope-decorated copy when `finalize` runs inside a config scope, which no
+  # reference matches (so nothing would be validated).
+  for ref in iterate_references(config, to=_inverse_lookup(macro).wrapper):
     validate_reference(ref, require_evaluation=True)
 
 
